@@ -33,7 +33,7 @@ const (
 type eofSum struct {
 	// dataWithEOF: some return hands out a payload (slice / pointer / string result)
 	// together with an EOF-shaped error
-	dataWithEOF string
+	dataWithEOF   string
 	boundary, mid uint8
 	midWhy        []string // where the mid shapes come from (diagnostics)
 	manufactured  []string // io.EOF produced under a test for a different error
